@@ -4,3 +4,5 @@ import Shovel.Model.Abi
 import Shovel.Model.AbiType
 import Shovel.Model.Parse
 import Shovel.Spec.Abi
+import Shovel.Spec.AbiDecl
+import Shovel.Model.Plan
